@@ -580,9 +580,13 @@ func (c *Ctx) binaryDriverTable(d *ssa.Function) (known bool, bad string) {
 		name, helper string
 	}{{"NoBroadcasting", ""}, {"UnidirectionalBroadcasting", "UnidirectionalBroadcast"}, {"MultidirectionalBroadcasting", "MultidirectionalBroadcast"}}
 	cov := newCover(d)
+	st := c.libInit()
+	if len(st.failed) > 0 {
+		return false, ""
+	}
 	{
 		// a mode the library does not define: only walked, so that the selection's fall-through is seen
-		p := &pinterp{c: c, budget: 100000, objects: true, cover: cov}
+		p := &pinterp{c: c, budget: 100000, objects: true, cover: cov, globals: st.globals}
 		p.intercept = func(fn *ssa.Function, call *ssa.Call, callee *ssa.Function, args []pval, h *pheap) ([]pval, bool) {
 			if fnPkgPath(callee) == pkgOps && callee.Parent() == nil && strings.HasSuffix(callee.Name(), "directionalBroadcast") {
 				return []pval{{k: pAbs, i: 9011, s: "tensor"}, {k: pAbs, i: 9012, s: "tensor"}, {k: pNil}}, true
@@ -592,7 +596,7 @@ func (c *Ctx) binaryDriverTable(d *ssa.Function) (known bool, bad string) {
 		p.onDyn = func(fn *ssa.Function, call *ssa.Call, args []pval, h *pheap) ([]pval, bool) {
 			return []pval{{k: pAbs, i: 9021, s: "tensor"}, {k: pNil}}, true
 		}
-		p.run(d, []pval{{k: pAbs, i: 9001, s: "tensor"}, {k: pAbs, i: 9002, s: "tensor"}, {k: pHookFn, i: 1}, {k: pInt, i: 97}}, 0, newHeap())
+		p.run(d, []pval{{k: pAbs, i: 9001, s: "tensor"}, {k: pAbs, i: 9002, s: "tensor"}, {k: pHookFn, i: 1}, {k: pInt, i: 97}}, 0, st.heap.clone())
 	}
 	for _, m := range modes {
 		mv := c.constValue(pkgOps, m.name)
@@ -605,7 +609,7 @@ func (c *Ctx) binaryDriverTable(d *ssa.Function) (known bool, bad string) {
 			}
 			A, B := pval{k: pAbs, i: 9001, s: "tensor"}, pval{k: pAbs, i: 9002, s: "tensor"}
 			r0, r1, out := pval{k: pAbs, i: 9011, s: "tensor"}, pval{k: pAbs, i: 9012, s: "tensor"}, pval{k: pAbs, i: 9021, s: "tensor"}
-			p := &pinterp{c: c, budget: 100000, objects: true, cover: cov}
+			p := &pinterp{c: c, budget: 100000, objects: true, cover: cov, globals: st.globals}
 			var helpers []string
 			var kernelArgs [][]pval
 			helperArgsOK := true
@@ -632,7 +636,7 @@ func (c *Ctx) binaryDriverTable(d *ssa.Function) (known bool, bad string) {
 				}
 				return nil, false
 			}
-			heap := newHeap()
+			heap := st.heap.clone()
 			res, h := p.run(d, []pval{A, B, {k: pHookFn, i: 1}, {k: pInt, i: mv}}, 0, heap)
 			if p.aborted || len(res) != 2 {
 				return false, ""
@@ -1376,4 +1380,12 @@ func (c *Ctx) inlineTerm(f *ssa.Function, args []ssa.Value, depth int) (string, 
 	// shorter alternative first: phi(x|f(x)) is how an if without else renders
 	sort.SliceStable(parts, func(i, j int) bool { return len(parts[i]) < len(parts[j]) })
 	return "phi(" + strings.Join(parts, "|") + ")", true
+}
+
+// rulePReluKernel: PRelu's broadcast order and element kernel under the properties that have PRelu in their
+// quantifier without the other unary operators (C16: a sample's result must not depend on how many others there are).
+func rulePReluKernel(c *Ctx, prop string) {
+	if oi := c.opByName("PRelu"); oi != nil {
+		c.checkPRelu(oi, "R7:unary:PRelu")
+	}
 }
